@@ -226,6 +226,9 @@ func buildCorpus() []corpusEntry {
 	M("F-22 duplicate key three attributes", hx("83 a161 01 a162 02 a161 03"), obj("a", num, "b", num, "c", num))
 	M("F-22 duplicate key inside a list", hx("92 82a16101a16202 82a16101a16102"), cty.List(obj("a", num, "b", num)))
 	M("object key NFD", hx("81 a36cc381 01"), obj("lÁ", num))
+	M("duplicate object key, second time in the other normal form", hx("82 a3 6cc381 01 a4 6c41cc81 02"), obj("l\u00c1", num, "b", num), obj("l\u00c1", num, "a", num, "b", num), cty.Map(num))
+	M("duplicate object key, NFD first", hx("83 a4 6c41cc81 01 a3 6cc381 02 a162 03"), obj("l\u00c1", num, "b", num, "c", num), cty.Map(num))
+	M("duplicate key in the other normal form inside a list", hx("91 82 a3 6cc381 01 a4 6c41cc81 02"), cty.List(obj("l\u00c1", num, "z", num)), cty.List(cty.Map(num)))
 	M("tuple length mismatch", hx("92 01 02"), tup(num), tup(num, num, num))
 	M("object attribute count mismatch", hx("81 a161 01"), obj("a", num, "b", num), obj())
 	M("map with non-string key", hx("81 01 02"), cty.Map(num), obj("", num))
